@@ -19,7 +19,7 @@ Ev == Trace[l]
 TInit == WNewState(FALSE) /\ l = 1
 
 TNewW == /\ Ev.ev = "new"
-         /\ ros' = Ev.ros /\ lp' = "ask" /\ sp' = "none" /\ done' = FALSE
+         /\ ros' = Ev.ros /\ sctx' = (IF Ev.canc THEN "cancelled" ELSE "live") /\ lp' = "ask" /\ sp' = "none" /\ done' = FALSE
          /\ nnow' = 0 /\ nd' = 0 /\ askedWith' = 0 /\ waitD' = 0
          /\ timer' = "none" /\ timerD' = 0 /\ fires' = 0 /\ ticks' = 0
          /\ refs' = <<>> /\ lerr' = 0 /\ handled' = <<>> /\ result' = -1 /\ ferr' = 0
@@ -34,14 +34,15 @@ TTick == Ev.ev = "tick" /\ DeliverTick
 TRefresh == /\ Ev.ev = "refresh"
             /\ \/ Ev.who = "loop" /\ Refresh(Ev.out)
                \/ Ev.who = "final" /\ FinalRefresh(Ev.out)
-            /\ Ev.cons /\ Ev.live
+            /\ Ev.cons /\ Ev.live = refs'[Len(refs')].live
             /\ Ev.k = Len(refs')
 THandle == Ev.ev = "handle" /\ HandleError /\ Ev.err = handled'[Len(handled')]
+TCancel == Ev.ev = "cancel" /\ CancelStart
 TShutdown == Ev.ev = "shutdown" /\ Shutdown
 TRet == Ev.ev = "ret" /\ ShutdownReturn /\ Ev.res = result' /\ Ev.canc
 
 TNext == /\ l <= Len(Trace)
          /\ l' = l + 1
-         /\ (TNewW \/ TAsk \/ TSleep \/ TTick \/ TRefresh \/ THandle \/ TShutdown \/ TRet)
+         /\ (TNewW \/ TAsk \/ TSleep \/ TTick \/ TRefresh \/ THandle \/ TCancel \/ TShutdown \/ TRet)
 TSpec == TInit /\ [][TNext]_tvars
 =============================================================================
